@@ -131,6 +131,57 @@ Proof.
 Qed.
 Print Assumptions C12_guards_present.
 
+(* the sender's chunk buffer: whatever limit the peer announces (recvConfig lets every int64
+   through, clamping only from above) and whatever the acknowledgements say, every capacity
+   handed to make is at least the floor - hence positive - and at most the larger of the
+   initial size and the limit *)
+Theorem C12_capacity_bounded : forall maxbuf l, maxbuf <= Consts.guards_bufsize_clamp -> forallb gd_ack_ok l = true ->
+  Forall (fun c => Consts.guards_min_chunk <= c <= Z.max Consts.guards_init_buffer_size maxbuf) (gd_capacities maxbuf l).
+Proof. exact capacity_bounded. Qed.
+Print Assumptions C12_capacity_bounded.
+
+Theorem C12_capacity_bounded_cfg : forall j maxbuf l, recv_config_bufsize j = Some maxbuf -> forallb gd_ack_ok l = true ->
+  Forall (fun c => 1 <= c <= Z.max Consts.guards_init_buffer_size Consts.guards_bufsize_clamp) (gd_capacities maxbuf l).
+Proof. exact capacity_bounded_cfg. Qed.
+Print Assumptions C12_capacity_bounded_cfg.
+
+Theorem C12_capacity_bounded_v1 : forall maxbuf l, maxbuf <= Consts.guards_bufsize_clamp ->
+  Forall (fun c => 1 <= c <= Z.max Consts.guards_v1_init_bufsize maxbuf) (gd_bufsize_run_v1 maxbuf Consts.guards_v1_init_bufsize l).
+Proof. exact capacity_bounded_v1. Qed.
+Print Assumptions C12_capacity_bounded_v1.
+
+(* the stronger reading - "within [1, announced limit] or the configuration is rejected" - is kept
+   as a definition and refuted: the code rejects no integer and starts at its own initial size
+   (limit -1: capacity 10240; limit 1024, a legitimate -B 1k: capacity 10240 as well) *)
+Definition C12_capacity_within_announced_full : Prop := capacity_within_announced_full.
+Theorem C12_capacity_within_announced_refuted :
+  (exists j maxbuf, recv_config_bufsize j = Some maxbuf /\ maxbuf = -1 /\ gd_capacities maxbuf [] = [10240]) /\
+  (exists j maxbuf, recv_config_bufsize j = Some maxbuf /\ maxbuf = 1024 /\ gd_capacities maxbuf [] = [10240]) /\
+  ~ C12_capacity_within_announced_full.
+Proof. exact capacity_within_announced_refuted. Qed.
+Print Assumptions C12_capacity_within_announced_refuted.
+
+(* what depends on the growth guard being "<": with an inequality test one full fast chunk stores a
+   negative limit *)
+Theorem C12_growth_guard_ne_refuted : exists maxbuf a, maxbuf <= Consts.guards_bufsize_clamp /\ gd_ack_ok a = true /\
+  gd_bufsize_step_ne maxbuf Consts.guards_init_buffer_size a = -1.
+Proof. exact growth_guard_ne_refuted. Qed.
+Print Assumptions C12_growth_guard_ne_refuted.
+
+(* the stores to bufferSize and the protocol-1 sender's assignments, with the conditions in front *)
+Theorem C12_bufsize_guards_present :
+  map (fun x => (snd (fst x), snd x)) Skel_guards.bufsize_stores =
+  [("t.bufferSize.Store(10240)", []);
+   ("t.bufferSize.Store(minInt64(bufSize*2, t.transferConfig.MaxBufSize))",
+    ["!(length != ack.length)"; "ignoreChunkTimeCount <= 0 || t.bufInitPhase.Load()";
+     "length == bufSize && chunkTime < 500*time.Millisecond && bufSize < t.transferConfig.MaxBufSize"]);
+   ("t.bufferSize.Store(bufSize)",
+    ["!(length != ack.length)"; "ignoreChunkTimeCount <= 0 || t.bufInitPhase.Load()";
+     "!(length == bufSize && chunkTime < 500*time.Millisecond && bufSize < t.transferConfig.MaxBufSize)";
+     "chunkTime >= 2*time.Second && length <= bufSize"])]%string.
+Proof. exact (f_equal (map (fun x => (snd (fst x), snd x))) (proj1 guards_present_bufsize)). Qed.
+Print Assumptions C12_bufsize_guards_present.
+
 (* the code before the fixes violates the bound: the confirmed inputs *)
 Theorem C12_data_unfixed_refuted : exists c n, cfg_ok c = true /\ guard_unfixed FDataSizeV2 c 0 n = true /\
   amount_unfixed FDataSizeV2 c 0 n > bound FDataSizeV2 c /\
